@@ -457,6 +457,9 @@ func c17(r *ev.Run, replay string) {
 			// 2^8 / 2^16 (arithmetic narrowed to a small integer type would accept them), and negative ones
 			{one, []int{256, 1}}, {one, []int{256 + 3, 2}}, {one, []int{0, 256 + 1}}, {one, []int{65536, 1}}, {one, []int{65536 + 3, 2}}, {big.NewInt(5), []int{65536 + 4, 4}},
 			{one, []int{0, 65536 + 1}}, {one, []int{2, 65536 + 2}}, {one, []int{65536, 65536 + 1}}, {one, []int{1 << 20, 1}}, {one, []int{0, 1 << 20}}, {one, []int{65536 + 3, 2, 1}}, {one, []int{65536 + 3, 2, 0}},
+			// an empty window (width 0) holds the value 0 only
+			{one, []int{0, 0}}, {one, []int{3, 0}}, {big.NewInt(5), []int{1, 0}}, {one, []int{bits - 1, 0}}, {one, []int{2, 0, 1}}, {one, []int{2, 0, 0}},
+			{big.NewInt(0), []int{0, 0}}, {big.NewInt(0), []int{5, 0}},
 			{one, []int{-1, 1}}, {one, []int{0, -1}}, {one, []int{-8, 4}}, {one, []int{4, -4}}, {one, []int{-1, 1, 0}}, {big.NewInt(0), []int{-65536, 1}},
 		}
 		for _, c := range cases {
